@@ -1,9 +1,28 @@
 import PyamgV.Driver.Util
-/-! Driver ops of extension task E16 (op names prefixed `ext_`). -/
+import PyamgV.Model.ExtC06Gmres
+/-! Driver ops of extension task E16 (property C06; op names prefixed `ext_`).  Numbers are binary64 bit patterns
+written as decimal integers; matrices: rows separated by `;`.
+
+`ext_c06_gmres <mgs|hh|fg> <A> <M> <b> <x0> <tol> <restart|_> <maxiter|_>`
+  the complete run of `gmres_mgs` / `gmres_householder` / `fgmres` (`Model/ExtC06Gmres.lean`, binary64)
+  → `<status> <niter> <residuals> <x> <callback_1;…;callback_m>`, `short` for the `n == 1` shortcut / rejected input -/
 namespace PyamgV.Drv.ExtE16
-open PyamgV PyamgV.Drv
+open PyamgV PyamgV.Drv PyamgV.ExtC06
+
+def fmat (t : String) : List (List Float) :=
+  if t = "-" then [] else (t.splitOn ";").map (fun r => (parseFloats r).toList)
+
+def optNat (t : String) : Option Nat := if t = "_" then none else t.toNat?
+
+def bitsOf (v : List Float) : String := sh (v.map fun f => toString f.toBits.toNat)
 
 def handle : List String → Option String
+  | ["ext_c06_gmres", kind, a, m, b, x0, tol, r, mi] =>
+    match gmresFullFloat kind (fmat a) (fmat m) (parseFloats b).toList (parseFloats x0).toList
+        ((parseFloats tol).getD 0 0) (optNat r) (optNat mi) with
+    | none => some "short"
+    | some (st, ni, hist, x, log) =>
+      some s!"{st} {ni} {bitsOf hist} {bitsOf x} {if log.isEmpty then "-" else String.intercalate ";" (log.map bitsOf)}"
   | _ => none
 
 end PyamgV.Drv.ExtE16
